@@ -42,12 +42,12 @@ def mk(n, terms=True, coeffs=True, extra=True, cell='ortho', seed=0, labels=True
                 kw[name + '_type_coeffs'] = ["%s_style %d.5 # %s%d%s" % (name, i + 1, name[0].upper(), i, "  a much longer coefficient comment" if long else "") for i in range(nt + (1 if unused else 0))]
             if extra:
                 kw['extra_%s_labels' % name] = ['_x_%s_a' % name, '_x_%s_b' % name]
-                kw['extra_%s_fields' % name] = [['%s%da' % (name[0], i), '%s%db' % (name[0], i)] for i in range(len(ts))]
+                kw['extra_%s_fields' % name] = [['%s%da' % (name[0], i), ('%s%d-long-value' if long else '%s%db') % (name[0], i)] for i in range(len(ts))]
     if coeffs:
         kw['pair_coeffs'] = ["lj %d.25 3.%d # %s%s" % (i + 1, i, e, "  long pair comment" if long else "") for i, e in enumerate(uniq)]
     if extra and n > 0:
         kw['extra_atom_labels'] = ['_site_occ', '_site_note']
-        kw['extra_atom_fields'] = [['1.0', 'n%d' % i] for i in range(n)]
+        kw['extra_atom_fields'] = [['1.0', ('a-much-longer-note-%d' % i) if long else 'n%d' % i] for i in range(n)]
     if xrev:
         # same extra columns listed in the opposite order (values follow their labels)
         for k in list(kw):
